@@ -34,10 +34,24 @@ Record global_site := {
   gs_writers : list string; gs_readers : list string
 }.
 
+(* class-level state of the bindings runtime: the generated classes' metadata lists (one row per attribute name / pattern,
+   e.g. member_data_items_ of all 199 classes) and the keyed memos kept on the class object (__all_members_) *)
+Inductive mkind := MMetadata | MMemo.
+
+Record meta_site := {
+  cm_module : string; cm_attr : string; cm_kind : mkind;
+  cm_classes : Z;        (* how many classes carry it *)
+  cm_mutated : bool;     (* metadata: some run-time code mutates it in place or rebinds it, directly, through any receiver
+                            (cls / self / c in __mro__) or through a local alias.  memo: an entry is deleted / the table is
+                            used other than by key / a value handed out by its getter is mutated by a caller *)
+  cm_aliases : bool      (* memo: some stored value is not provably a fresh object (it may alias a class attribute) *)
+}.
+
 Record state_table := {
   st_defaults : list default_site;
   st_fields : list field_site;
-  st_globals : list global_site
+  st_globals : list global_site;
+  st_classmeta : list meta_site
 }.
 
 Definition is_nil {A} (l : list A) : bool := match l with [] => true | _ => false end.
@@ -54,8 +68,11 @@ Definition shared_fields (t : state_table) : list field_site := filter field_sha
 Definition all_own (t : state_table) : bool := forallb (fun f => negb (field_shared f)) (st_fields t).
 Definition globals_read (t : state_table) : list global_site := filter global_read (st_globals t).
 
+Definition meta_bad (m : meta_site) : bool := cm_mutated m || cm_aliases m.
+Definition mutated_class_attrs (t : state_table) : list meta_site := filter meta_bad (st_classmeta t).
+
 Definition state_ok (t : state_table) : bool :=
-  is_nil (mutated_defaults t) && all_own t && is_nil (globals_read t).
+  is_nil (mutated_defaults t) && all_own t && is_nil (globals_read t) && is_nil (mutated_class_attrs t).
 
 (* ------------------------------------------------------------------------------------------- *)
 (* B2. histories of calls with footprints                                                        *)
@@ -86,6 +103,25 @@ Section History.
   Fixpoint results (h : list call) (w : gworld) : list res :=
     match h with [] => [] | x :: h' => fst (sem x w) :: results h' (snd (sem x w)) end.
 End History.
+
+(* a keyed memo (e.g. GeneratedsSuperSuper.__all_members_): look up, or compute-and-store.  f is what the computation
+   returns for a key: a function of the key and of CONSTANTS of the world (class metadata nobody mutates). *)
+Section Memo.
+  Variables K V : Type.
+  Variable keqb : K -> K -> bool.
+  Variable f : K -> V.
+  Definition memo := list (K * V).
+  Fixpoint mlookup (m : memo) (k : K) : option V :=
+    match m with [] => None | (k', v) :: r => if keqb k' k then Some v else mlookup r k end.
+  Definition mget (m : memo) (k : K) : V * memo :=
+    match mlookup m k with Some v => (v, m) | None => (f k, (k, f k) :: m) end.
+  Definition mconsistent (m : memo) : Prop := forall k v, mlookup m k = Some v -> v = f k.
+  Fixpoint mrun (ks : list K) (m : memo) : list V * memo :=
+    match ks with
+    | [] => ([], m)
+    | k :: r => let '(v, m1) := mget m k in let '(vs, m2) := mrun r m1 in (v :: vs, m2)
+    end.
+End Memo.
 
 (* ------------------------------------------------------------------------------------------- *)
 (* B3. loaders.py                                                                                *)
@@ -121,15 +157,19 @@ Inductive default_mode := DNone | DSharedList.
   (* DNone: `already_included=None` + `if already_included is None: already_included = []` (fresh per call)
      DSharedList: `already_included=[]` evaluated once at def time and appended to *)
 
-Inductive cell := CellFile | CellString | CellInner.   (* the default objects of read_neuroml2_file / _string / _read_neuroml2 *)
+(* the default objects of read_neuroml2_file / read_neuroml2_string / _read_neuroml2 / NeuroMLHdf5Loader.load *)
+Inductive cell := CellFile | CellString | CellInner | CellH5.
 
 Definition cell_eqb (a b : cell) : bool :=
-  match a, b with CellFile, CellFile | CellString, CellString | CellInner, CellInner => true | _, _ => false end.
+  match a, b with
+  | CellFile, CellFile | CellString, CellString | CellInner, CellInner | CellH5, CellH5 => true
+  | _, _ => false
+  end.
 
-Record modes := { m_file : default_mode; m_string : default_mode; m_inner : default_mode }.
+Record modes := { m_file : default_mode; m_string : default_mode; m_inner : default_mode; m_h5 : default_mode }.
 
 Definition mode_of (ms : modes) (c : cell) : default_mode :=
-  match c with CellFile => m_file ms | CellString => m_string ms | CellInner => m_inner ms end.
+  match c with CellFile => m_file ms | CellString => m_string ms | CellInner => m_inner ms | CellH5 => m_h5 ms end.
 
 Definition lworld := cell -> list string.
 Definition wupd (w : lworld) (c : cell) (v : list string) : lworld := fun c' => if cell_eqb c c' then v else w c'.
@@ -313,8 +353,9 @@ Definition exec_call (fuel : nat) (ms : modes) (sh : lshape) (fs : fstore) (x : 
   | CInner src incl ai =>
     let '(r, loc) := start_ref (m_inner ms) CellInner ai in
     let '(a, _, w') := read2 fuel ms sh fs src incl r loc w in (a, w')
-  | CLoadH5 p =>      (* already_included=None -> a fresh list (only used when the shape threads it) *)
-    let '(a, _, w') := load_h5_with (read2 fuel ms sh fs) ms sh fs p ALocal [] w in (a, w')
+  | CLoadH5 p =>      (* load(src, optimized, already_included=<default>): only used when the shape threads it *)
+    let '(r, loc) := start_ref (m_h5 ms) CellH5 None in
+    let '(a, _, w') := load_h5_with (read2 fuel ms sh fs) ms sh fs p r loc w in (a, w')
   | CLoadXml p =>
     match lookup_file fs p with
     | Some f => match f_kind f with FXml => (ROk (f_items f), w) | FH5 => (RErr, w) end
@@ -328,11 +369,11 @@ Definition run_hist (fuel : nat) (ms : modes) (sh : lshape) (fs : fstore) (hist 
 (* loaders.py at the pinned commit *)
 Definition shape0 : lshape := {| sh_mark_entry := false; sh_append_first := false; sh_h5_threads := false |}.
 
-Definition none_modes : modes := {| m_file := DNone; m_string := DNone; m_inner := DNone |}.
+Definition none_modes : modes := {| m_file := DNone; m_string := DNone; m_inner := DNone; m_h5 := DNone |}.
 
 (* footprints derived from the modes: a call may read and write exactly the shared default objects *)
 Definition shared_cells (ms : modes) : list cell :=
-  filter (fun c => match mode_of ms c with DSharedList => true | DNone => false end) [CellFile; CellString; CellInner].
+  filter (fun c => match mode_of ms c with DSharedList => true | DNone => false end) [CellFile; CellString; CellInner; CellH5].
 
 (* the modes as determined by the generated table *)
 Definition flagged (t : state_table) (func : string) : bool :=
@@ -344,7 +385,8 @@ Definition mode_if (b : bool) : default_mode := if b then DSharedList else DNone
 Definition modes_of (t : state_table) : modes :=
   {| m_file := mode_if (flagged t "read_neuroml2_file");
      m_string := mode_if (flagged t "read_neuroml2_string");
-     m_inner := mode_if (flagged t "_read_neuroml2") |}.
+     m_inner := mode_if (flagged t "_read_neuroml2");
+     m_h5 := mode_if (flagged t "NeuroMLHdf5Loader.load") |}.
 
 (* comparison helpers for the correspondence run *)
 Definition same_set (a b : list string) : bool :=
@@ -463,7 +505,8 @@ Inductive op :=
 | OpNetwork (id : string)
 | OpPopulation (pid comp : string) (size : Z)
 | OpLocation (id : Z) (pid : string) (xyz : option (Z * Z * Z))
-| OpProjection (id pre post syn : string) (k : pkind) (hasW hasD : bool)
+| OpProjection (id pre post syn : string) (k : pkind) (hasW hasD : bool) (presyn : option string)
+    (* presyn: id of a pre_synapse_obj (a SilentSynapse) handed to handle_projection, or None *)
 | OpConnection (proj : string) (cid : Z) (pre post : string) (preCell postCell : Z) (delay weight : Z)
 | OpInputList (id pop comp : string)
 | OpSingleInput (lid : string) (id cell : Z) (weight : Z)
@@ -577,9 +620,19 @@ Definition hrec (eg : bool) (o : op) (v : bview) : bview * bool :=
       | _ => (v, true)
       end
     end
-  | OpProjection id pre post syn k hasW hasD =>
+  | OpProjection id pre post syn k hasW hasD presyn =>
+    (* if pre_synapse_obj: self.nml_doc.append(pre_synapse_obj)   [add(): not re-added when an equal object is there] *)
+    match presyn, v_doc v with
+    | Some _, None => (v, true)
+    | _, _ =>
+    let v := match presyn, v_doc v with
+             | Some s, Some d =>
+               if mem s (d_silent d) then v
+               else with_doc v (Some {| d_id := d_id d; d_nets := d_nets d; d_silent := (d_silent d ++ [s])%list |})
+             | _, _ => v
+             end in
     match v_net v with
-    | None => (v, true)       (* self.network.<list>.append raises before anything is stored *)
+    | None => (v, true)       (* self.network.<list>.append raises before anything else is stored *)
     | Some na =>
       let a := length (v_hprojs v) in
       let newp := ObProj k id pre post (match k with PProj => syn | _ => "" end) [] [] [] in
@@ -603,15 +656,20 @@ Definition hrec (eg : bool) (o : op) (v : bview) : bview * bool :=
       | PElec => (fin (with_meta v2 (dset (v_syns v2) id (VStr syn)) (v_types v2) (v_synspre v2) (v_wd v2)), false)
       | PCont =>
         let v3 := with_meta v2 (dset (v_syns v2) id (VStr syn)) (v_types v2) (v_synspre v2) (v_wd v2) in
-        (* pre_synapse_obj is None: SilentSynapse("silentSyn_<id>") appended to self.nml_doc.silent_synapses *)
-        match v_doc v3 with
-        | None => (v3, true)
-        | Some d =>
-          let sid := "silentSyn_" ++ id in
-          let v4 := with_doc v3 (Some {| d_id := d_id d; d_nets := d_nets d; d_silent := (d_silent d ++ [sid])%list |}) in
-          (fin (with_meta v4 (v_syns v4) (v_types v4) (dset (v_synspre v4) id (VStr sid)) (v_wd v4)), false)
+        match presyn with
+        | Some s => (fin (with_meta v3 (v_syns v3) (v_types v3) (dset (v_synspre v3) id (VStr s)) (v_wd v3)), false)
+        | None =>
+          (* pre_synapse_obj is None: SilentSynapse("silentSyn_<id>") appended to self.nml_doc.silent_synapses *)
+          match v_doc v3 with
+          | None => (v3, true)
+          | Some d =>
+            let sid := "silentSyn_" ++ id in
+            let v4 := with_doc v3 (Some {| d_id := d_id d; d_nets := d_nets d; d_silent := (d_silent d ++ [sid])%list |}) in
+            (fin (with_meta v4 (v_syns v4) (v_types v4) (dset (v_synspre v4) id (VStr sid)) (v_wd v4)), false)
+          end
         end
       end
+    end
     end
   | OpConnection proj cid pre post preCell postCell delay weight =>
     match get_pop v pre, get_pop v post with
